@@ -20,6 +20,9 @@ def main():
             na.append({"property_id": pid, "reason": NOT_BUILT})
             continue
         m = importlib.import_module("mc.checks." + pid)
+        if not getattr(m, "READY", False):
+            na.append({"property_id": pid, "reason": NOT_BUILT})
+            continue
         if getattr(m, "NOT_APPLICABLE", None):
             na.append({"property_id": pid, "reason": m.NOT_APPLICABLE})
             continue
